@@ -115,8 +115,8 @@ def check(ctx):
     scf, uri, ad = par[1], par[2], par[3]
     want = sorted(['[%s]' % scf, '[%s, *%s[%s]]' % (scf, ad, uri)])
     ctx.inst('R4', pad, 'args=[scf]+args_dict[uri]', rets == want, 'return values per path %s, expected %s (the entry is appended with extend semantics: any sequence, not only a list)' % (rets, want))
-    conds = sorted({tuple(p.cond_texts()) for p in pp})
-    ctx.inst('R4', pad, 'args-dict-optional', conds == sorted([(ad,), ('not ' + ad,)]),
+    conds = sorted({tuple(sorted(p.fact_keys())) for p in pp})
+    ctx.inst('R4', pad, 'args-dict-optional', conds == sorted([(fact_key(ad, True),), (fact_key(ad, False),)]),
              'argument dictionary consulted iff given; path conditions %s' % (conds,))
 
     # wrapper positions
